@@ -432,6 +432,9 @@ func (s *Solver) SolvePortfolio(vs []Variant) Answer {
 		os.WriteFile(files[i], []byte(v.Query), 0o644)
 	}
 	defer func() {
+		if os.Getenv("GOVC_KEEP") != "" {
+			return
+		}
 		for i, f := range files {
 			if f != file {
 				_ = i
